@@ -181,3 +181,224 @@ Proof.
     destruct (add_label L1 l 0 true) as [L2|k sp|]; destruct (add_label L1' (canon_label l) 0 true) as [L2'|k' sp'|]; cbn [rr abind] in *; try contradiction; try exact S.
     exact (TAIL (NDir (DExternal l)) (p1_cur st) (p1_cur st') L2 L2' (p1_rel st) sp0 (0, 0) HC S).
 Qed.
+
+Lemma p1_loop_sim p : forall st st', p1_sim st st' ->
+  rr p1_sim (p1_loop None st p) (p1_loop None st' (map canon_stmt p)).
+Proof.
+  induction p as [|s p IH]; intros st st' H; cbn [p1_loop map]; [exact H|].
+  pose proof (p1_step_sim st st' s H) as S.
+  destruct (p1_step None st s) as [st1|k sp|]; destruct (p1_step None st' (canon_stmt s)) as [st1'|k' sp'|]; cbn [rr abind] in *; try contradiction; try exact S.
+  apply IH. exact S.
+Qed.
+
+Definition sym_sim (t t' : symtab) : Prop := lm_rel (st_labels t) (st_labels t') /\ st_rel t = st_rel t' /\ st_debug t = None /\ st_debug t' = None.
+
+Lemma is_external_sim L L' k : lm_rel L L' -> is_external L k = is_external L' k.
+Proof.
+  intros H. unfold is_external. pose proof (lm_rel_assoc L L' k H) as A.
+  destruct (assoc k L); destruct (assoc k L'); try contradiction; [exact (proj2 A) | reflexivity].
+Qed.
+
+Lemma pass1_sim p : rr sym_sim (pass1 p None) (pass1 (map canon_stmt p) None).
+Proof.
+  unfold pass1.
+  assert (H0 : p1_sim (mkP1 None [] [] None) (mkP1 None [] [] None)) by (repeat split).
+  pose proof (p1_loop_sim p _ _ H0) as S.
+  destruct (p1_loop None (mkP1 None [] [] None) p) as [st|k sp|]; destruct (p1_loop None (mkP1 None [] [] None) (map canon_stmt p)) as [st'|k' sp'|];
+    cbn [rr abind] in *; try contradiction; try exact S.
+  destruct S as [HC [HL [HR [N1 N2]]]]. unfold cur_sim in HC.
+  destruct (p1_cur st); destruct (p1_cur st'); try contradiction; [reflexivity|].
+  rewrite N1, N2. cbn [rr]. split; [exact HL|]. split; [|split; reflexivity]. cbn [st_rel]. rewrite <- HR.
+  unfold rel_of. f_equal. apply filter_ext. intros av. apply is_external_sim. exact HL.
+Qed.
+
+(* ---------- pass 2 ---------- *)
+Definition ob_sim (b b' : oblock) : Prop := ob_start b = ob_start b' /\ ob_words b = ob_words b'.
+Definition bm_sim (m m' : blockmap) : Prop := Forall2 (fun kb kb' => fst kb = fst kb' /\ ob_sim (snd kb) (snd kb')) m m'.
+Definition optb_sim (x x' : option (Z * oblock)) : Prop :=
+  match x, x' with Some kb, Some kb' => fst kb = fst kb' /\ ob_sim (snd kb) (snd kb') | None, None => True | _, _ => False end.
+
+Lemma bt_le_sim k m m' : bm_sim m m' -> optb_sim (bt_le k m) (bt_le k m').
+Proof.
+  intros H. induction H as [|[k0 b0] [k0' b0'] m m' [E1 E2] H IH]; cbn [bt_le]; [exact Logic.I|].
+  cbn [fst snd] in *. subst k0'. destruct (k0 <=? k); [|exact Logic.I].
+  unfold optb_sim in IH. destruct (bt_le k m); destruct (bt_le k m'); try contradiction; [exact IH|]. split; [reflexivity|exact E2].
+Qed.
+Lemma bt_ge_sim k m m' : bm_sim m m' -> optb_sim (bt_ge k m) (bt_ge k m').
+Proof.
+  intros H. induction H as [|[k0 b0] [k0' b0'] m m' [E1 E2] H IH]; cbn [bt_ge]; [exact Logic.I|].
+  cbn [fst snd] in *. subst k0'. destruct (k <=? k0); [split; [reflexivity|exact E2] | exact IH].
+Qed.
+Lemma bt_insert_sim k b b' m m' : ob_sim b b' -> bm_sim m m' -> bm_sim (bt_insert k b m) (bt_insert k b' m').
+Proof.
+  intros Hb H. induction H as [|[k0 b0] [k0' b0'] m m' [E1 E2] H IH]; cbn [bt_insert].
+  - constructor; [split; [reflexivity|exact Hb]|constructor].
+  - cbn [fst snd] in *. subst k0'. destruct (k <? k0).
+    + constructor; [split; [reflexivity|exact Hb]|]. constructor; [split; [reflexivity|exact E2]|exact H].
+    + destruct (k =? k0); constructor; try (split; [reflexivity|assumption]); assumption.
+Qed.
+Lemma ob_range_sim b b' : ob_sim b b' -> ob_range b = ob_range b'.
+Proof. intros [E1 E2]. unfold ob_range. rewrite E1, E2. reflexivity. Qed.
+Lemma find_overlap_sim blk blk' c c' : ob_sim blk blk' -> bm_sim c c' ->
+  match find_overlap blk c, find_overlap blk' c' with
+  | AOk None, AOk None => True
+  | AOk (Some b), AOk (Some b') => ob_sim b b'
+  | APanic, APanic => True
+  | _, _ => False
+  end.
+Proof.
+  intros Hb H. induction H as [|[k0 b0] [k0' b0'] c c' [E1 E2] H IH]; cbn [find_overlap]; [exact Logic.I|].
+  cbn [fst snd] in *. rewrite <- (ob_range_sim blk blk' Hb), <- (ob_range_sim b0 b0' E2).
+  destruct (ob_range blk); [|exact Logic.I]. destruct (ob_range b0); [|exact Logic.I].
+  destruct (ranges_overlap p p0); [exact E2 | exact IH].
+Qed.
+
+Lemma rpo_sim n o pc L L' : lm_rel L L' ->
+  rr eq (replace_pc_offset n o pc L) (replace_pc_offset n (canon_pcoff o) pc L').
+Proof.
+  intros H. destruct o as [v|l]; cbn [canon_pcoff replace_pc_offset canon_label l_name]; [reflexivity|]. rewrite upper_idem.
+  pose proof (lm_rel_assoc L L' (upper (l_name l)) H) as A.
+  destruct (assoc (upper (l_name l)) L) as [d|]; destruct (assoc (upper (l_name l)) L') as [d'|]; try contradiction; [|reflexivity].
+  destruct A as [A1 A2]. rewrite <- A1, <- A2. destruct (sd_external d); [reflexivity|].
+  destruct (new_s n (to_i16 (sd_addr d - pc))); reflexivity.
+Qed.
+Lemma into_sim_sim i pc L L' : lm_rel L L' ->
+  rr eq (into_sim_instr i pc L) (into_sim_instr (canon_instr i) pc L').
+Proof.
+  intros H. destruct i; cbn [canon_instr into_sim_instr]; try reflexivity;
+    match goal with |- rr eq (abind (replace_pc_offset ?n ?o _ _) _) _ =>
+      pose proof (rpo_sim n o pc L L' H) as S;
+      destruct (replace_pc_offset n o pc L); destruct (replace_pc_offset n (canon_pcoff o) pc L'); cbn [rr abind] in *; try contradiction; try exact S; subst; reflexivity end.
+Qed.
+Lemma write_directive_sim ws d L L' : lm_rel L L' ->
+  rr eq (write_directive ws d L) (write_directive ws (canon_directive d) L').
+Proof.
+  intros H. destruct d as [a|[v|l]|n|t| |l]; cbn [canon_directive canon_pcoff write_directive]; try reflexivity.
+  unfold lookup_label_map. cbn [canon_label l_name]. rewrite upper_idem.
+  pose proof (lm_rel_assoc L L' (upper (l_name l)) H) as A.
+  destruct (assoc (upper (l_name l)) L) as [d|]; destruct (assoc (upper (l_name l)) L') as [d'|]; try contradiction; cbn [option_map rr]; [|reflexivity].
+  rewrite (proj1 A). reflexivity.
+Qed.
+
+Definition cur2_sim (c c' : option (Z * oblock)) : Prop :=
+  match c, c' with Some (lc, b), Some (lc', b') => lc = lc' /\ ob_sim b b' | None, None => True | _, _ => False end.
+Definition p2_sim (st st' : p2) : Prop := bm_sim (p2_map st) (p2_map st') /\ cur2_sim (p2_cur st) (p2_cur st').
+
+Lemma word_len_canon d : word_len (canon_directive d) = word_len d.
+Proof. destruct d as [a|o|n|t| |l]; reflexivity. Qed.
+
+Lemma p2_step_sim L L' st st' s : lm_rel L L' -> p2_sim st st' ->
+  rr p2_sim (p2_step L st s) (p2_step L' st' (canon_stmt s)).
+Proof.
+  intros HL [HM HC]. unfold p2_step. cbn [canon_stmt s_nucleus stmt_span s_start s_end]. unfold cur2_sim in HC.
+  destruct (s_nucleus s) as [i|d]; cbn [canon_nucleus].
+  - destruct (p2_cur st) as [[lc b]|]; destruct (p2_cur st') as [[lc' b']|]; try contradiction; [|reflexivity].
+    destruct HC as [-> [E1 E2]]. pose proof (into_sim_sim i (wrap16 (lc' + 1)) L L' HL) as S.
+    destruct (into_sim_instr i (wrap16 (lc' + 1)) L); destruct (into_sim_instr (canon_instr i) (wrap16 (lc' + 1)) L'); cbn [rr abind] in *; try contradiction; try exact S.
+    subst. split; [exact HM|]. cbn [p2_cur cur2_sim]. split; [reflexivity|]. split; cbn [ob_start ob_words]; [exact E1 | rewrite E2; reflexivity].
+  - destruct d as [a|o|n|t| |l]; cbn [canon_directive].
+    + destruct (p2_cur st) as [[lc b]|]; destruct (p2_cur st') as [[lc' b']|]; try contradiction; [exact Logic.I|].
+      split; [exact HM|]. cbn [p2_cur cur2_sim]. split; [reflexivity|]. split; reflexivity.
+    + destruct (p2_cur st) as [[lc b]|]; destruct (p2_cur st') as [[lc' b']|]; try contradiction; [|reflexivity].
+      destruct HC as [-> [E1 E2]]. cbn [word_len]. rewrite E2.
+      pose proof (write_directive_sim (ob_words b') (DFill o) L L' HL) as S. cbn [canon_directive] in S.
+      destruct (write_directive (ob_words b') (DFill o) L); destruct (write_directive (ob_words b') (DFill (canon_pcoff o)) L'); cbn [rr abind] in *; try contradiction; try exact S.
+      subst. split; [exact HM|]. cbn [p2_cur cur2_sim]. split; [reflexivity|]. split; [exact E1 | reflexivity].
+    + destruct (p2_cur st) as [[lc b]|]; destruct (p2_cur st') as [[lc' b']|]; try contradiction; [|reflexivity].
+      destruct HC as [-> [E1 E2]]. cbn [word_len write_directive abind rr]. rewrite E2.
+      split; [exact HM|]. cbn [p2_cur cur2_sim]. split; [reflexivity|]. split; [exact E1 | reflexivity].
+    + destruct (p2_cur st) as [[lc b]|]; destruct (p2_cur st') as [[lc' b']|]; try contradiction; [|reflexivity].
+      destruct HC as [-> [E1 E2]]. destruct (word_len (DStringz t)); [|exact Logic.I]. cbn [write_directive abind rr]. rewrite E2.
+      split; [exact HM|]. cbn [p2_cur cur2_sim]. split; [reflexivity|]. split; [exact E1 | reflexivity].
+    + destruct (p2_cur st) as [[lc b]|]; destruct (p2_cur st') as [[lc' b']|]; try contradiction; [|reflexivity].
+      destruct HC as [_ [E1 E2]]. rewrite <- E2. destruct (ob_words b) eqn:EW; [split; [exact HM|exact Logic.I]|]. rewrite <- EW in *.
+      assert (CS : bm_sim (opt_list (bt_le (ob_start b) (p2_map st)) ++ opt_list (bt_ge (ob_start b) (p2_map st)))
+                          (opt_list (bt_le (ob_start b') (p2_map st')) ++ opt_list (bt_ge (ob_start b') (p2_map st')))).
+      { rewrite <- E1. pose proof (bt_le_sim (ob_start b) _ _ HM) as A. pose proof (bt_ge_sim (ob_start b) _ _ HM) as B.
+        unfold optb_sim in A, B. apply Forall2_app.
+        - destruct (bt_le (ob_start b) (p2_map st)); destruct (bt_le (ob_start b) (p2_map st')); try contradiction; [constructor; [exact A|constructor]|constructor].
+        - destruct (bt_ge (ob_start b) (p2_map st)); destruct (bt_ge (ob_start b) (p2_map st')); try contradiction; [constructor; [exact B|constructor]|constructor]. }
+      pose proof (find_overlap_sim b b' _ _ (conj E1 E2) CS) as F.
+      destruct (find_overlap b _) as [[o1|]|k sp|]; destruct (find_overlap b' _) as [[o1'|]|k' sp'|]; try contradiction; cbn [abind rr].
+      * reflexivity.
+      * split; [|exact Logic.I]. cbn [p2_map]. rewrite <- E1. apply bt_insert_sim; [split; assumption | exact HM].
+      * exact Logic.I.
+    + split; [exact HM | exact HC].
+Qed.
+
+Lemma p2_loop_sim L L' p : lm_rel L L' -> forall st st', p2_sim st st' ->
+  rr p2_sim (p2_loop L st p) (p2_loop L' st' (map canon_stmt p)).
+Proof.
+  intros HL. induction p as [|s p IH]; intros st st' H; cbn [p2_loop map]; [exact H|].
+  pose proof (p2_step_sim L L' st st' s HL H) as S.
+  destruct (p2_step L st s) as [st1|k sp|]; destruct (p2_step L' st' (canon_stmt s)) as [st1'|k' sp'|]; cbn [rr abind] in *; try contradiction; try exact S.
+  apply IH. exact S.
+Qed.
+
+(* two object files: same blocks, label tables equal up to source offsets, both or neither kept *)
+Definition obj_sim (o o' : objfile) : Prop :=
+  o_blocks o = o_blocks o' /\
+  match o_sym o, o_sym o' with
+  | Some t, Some t' => map core (st_labels t) = map core (st_labels t') /\ st_rel t = st_rel t'
+  | None, None => True
+  | _, _ => False
+  end.
+
+Lemma bm_sim_blocks m m' : bm_sim m m' ->
+  map (fun kb : Z * oblock => (fst kb, ob_words (snd kb))) m = map (fun kb : Z * oblock => (fst kb, ob_words (snd kb))) m'.
+Proof. intros H. induction H as [|x y m m' [E1 [_ E2]] H IH]; [reflexivity|]. cbn [map]. rewrite E1, E2, IH. reflexivity. Qed.
+
+Lemma existsb_ext_core L L' : lm_rel L L' ->
+  existsb (fun kv : str * symdata => sd_external (snd kv)) L = existsb (fun kv : str * symdata => sd_external (snd kv)) L'.
+Proof.
+  unfold lm_rel. revert L'. induction L as [|[k d] L IH]; intros [|[k' d'] L'] H; cbn [map] in H; try discriminate; [reflexivity|].
+  injection H as _ _ E H. cbn [existsb snd] in *. rewrite E, (IH L' H). reflexivity.
+Qed.
+
+Theorem assemble_canon p : rr obj_sim (assemble false None p) (assemble false None (map canon_stmt p)).
+Proof.
+  unfold assemble. pose proof (pass1_sim p) as S1.
+  destruct (pass1 p None) as [t|k sp|]; destruct (pass1 (map canon_stmt p) None) as [t'|k' sp'|]; cbn [rr abind] in *; try contradiction; try exact S1.
+  destruct S1 as [HL [HR _]]. unfold pass2.
+  assert (H0 : p2_sim (mkP2 [] None) (mkP2 [] None)) by (split; [constructor | exact Logic.I]).
+  pose proof (p2_loop_sim _ _ p HL _ _ H0) as S2.
+  destruct (p2_loop (st_labels t) (mkP2 [] None) p) as [st|k sp|]; destruct (p2_loop (st_labels t') (mkP2 [] None) (map canon_stmt p)) as [st'|k' sp'|];
+    cbn [rr abind] in *; try contradiction; try exact S2.
+  destruct S2 as [HM _]. split; cbn [o_blocks o_sym].
+  - apply bm_sim_blocks. exact HM.
+  - cbn [orb]. rewrite (existsb_ext_core _ _ HL). destruct (existsb _ (st_labels t')); [|exact Logic.I]. split; [exact HL | exact HR].
+Qed.
+
+(* symmetric / transitive use: two programs with the same canonical form *)
+Theorem assemble_same_canon l1 l2 : map canon_stmt l1 = map canon_stmt l2 ->
+  rr obj_sim (assemble false None l1) (assemble false None l2).
+Proof.
+  intros E. pose proof (assemble_canon l1) as S1. pose proof (assemble_canon l2) as S2. rewrite E in S1.
+  destruct (assemble false None l1) as [o1|k1 sp1|]; destruct (assemble false None (map canon_stmt l2)) as [oc|kc spc|];
+    destruct (assemble false None l2) as [o2|k2 sp2|]; cbn [rr] in *; try contradiction; try congruence; try exact Logic.I.
+  destruct S1 as [B1 Y1]. destruct S2 as [B2 Y2]. split; [congruence|].
+  destruct (o_sym o1) as [t1|]; destruct (o_sym oc) as [tc|]; destruct (o_sym o2) as [t2|]; try contradiction; try exact Logic.I.
+  destruct Y1 as [Y1 Z1]. destruct Y2 as [Y2 Z2]. split; congruence.
+Qed.
+
+Theorem assemble_same_shape l1 l2 : map shape_stmt l1 = map shape_stmt l2 ->
+  rr obj_sim (assemble false None l1) (assemble false None l2).
+Proof. intros E. apply assemble_same_canon. apply canon_of_shape. exact E. Qed.
+
+(* typedness is a property of the shape *)
+Lemma typed_stmt_canon s : typed_stmt (canon_stmt s) = typed_stmt s.
+Proof. unfold typed_stmt, canon_stmt. cbn [s_nucleus]. destruct (s_nucleus s) as [i|[a|o|n|t| |l]]; reflexivity. Qed.
+Lemma typed_canon p : typed (map canon_stmt p) = typed p.
+Proof. unfold typed. induction p as [|s p IH]; [reflexivity|]. cbn [map forallb]. rewrite typed_stmt_canon, IH. reflexivity. Qed.
+Lemma typed_same_canon l1 l2 : map canon_stmt l1 = map canon_stmt l2 -> typed l1 = typed l2.
+Proof. intros E. rewrite <- (typed_canon l1), <- (typed_canon l2), E. reflexivity. Qed.
+
+(* the label tables of the two symbol tables of pass 1 (SymbolTable::new) agree as well *)
+Theorem pass1_same_canon l1 l2 t1 t2 : map canon_stmt l1 = map canon_stmt l2 ->
+  pass1 l1 None = AOk t1 -> pass1 l2 None = AOk t2 ->
+  map core (st_labels t1) = map core (st_labels t2) /\ st_rel t1 = st_rel t2.
+Proof.
+  intros E E1 E2. pose proof (pass1_sim l1) as S1. pose proof (pass1_sim l2) as S2. rewrite E in S1. rewrite E1 in S1. rewrite E2 in S2.
+  destruct (pass1 (map canon_stmt l2) None) as [tc|k sp|]; cbn [rr] in *; try contradiction.
+  destruct S1 as [A1 [B1 _]]. destruct S2 as [A2 [B2 _]]. unfold lm_rel in *. split; congruence.
+Qed.
